@@ -335,3 +335,8 @@ def run(ctx, R):
     for fn in ("idiv", "modulus", "remainder", "int_pow", "max", "min"):
         n_ord += repo.operand_order_obligations(F, F.find("machine::arithmetic_ops::" + fn), R, "C01:operand-order:" + fn)
     R.floor("ordered operand sites in integer ops", n_ord, 12)
+    # ---- RF1: every representation-pair arm of a binary integer operation computes from both operands ----
+    n_use = 0
+    for fn in ("add", "sub", "mul", "idiv", "int_floor_div", "modulus", "remainder", "gcd", "max", "min", "and", "or", "xor", "int_pow", "rdiv", "div"):
+        n_use += repo.operand_use_obligations(F, F.find("machine::arithmetic_ops::" + fn), R, "C01:operand-use:" + fn)
+    R.floor("representation-pair arms of binary integer ops", n_use, 30)
